@@ -108,6 +108,31 @@ func (g *srvGen) variant(r2 *rand.Rand) int {
 		a.cid = append(append([]byte{}, pre...), 1, byte(r2.Intn(256)))
 		b.cid = append(append([]byte{}, pre...), 2)
 	}
+	// a hardware address with the group bit set (nobody forbids a client to send one; replies echo it bit for bit)
+	if r2.Intn(4) == 0 {
+		for _, c := range g.clients {
+			if !c.static && len(c.mac) == 6 {
+				c.mac = append([]byte{}, c.mac...)
+				c.mac[0] |= 1
+				if len(c.cid) == 7 && c.cid[0] == 1 {
+					c.cid = append([]byte{1}, c.mac...)
+				}
+				break
+			}
+		}
+	}
+	// client identifiers of 136-255 octets: two clients behind one hardware address that differ only there
+	if len(g.clients) >= 2 && r2.Intn(4) == 0 {
+		a, b := g.clients[len(g.clients)-1], g.clients[len(g.clients)-2]
+		if !a.static && !b.static {
+			long := randBytes(r2, 136+r2.Intn(120))
+			long[0] = 0xff
+			a.cid = append(append([]byte{}, long...), 1)[:len(long)]
+			b.cid = append([]byte{}, long...)
+			b.cid[len(b.cid)-1] ^= 0x55
+			b.mac = a.mac
+		}
+	}
 	// a client identifier of exactly four octets that spells an address of the network (the server's own, a reserved one, a pool one)
 	if r2.Intn(3) == 0 {
 		addrs := []uint32{g.cfg.selfIP}
@@ -688,6 +713,14 @@ func (g *srvGen) next() ([]byte, []arpResp, *simClient, byte) {
 			}
 		}
 	}
+	if g.r2 != nil && g.r2.Intn(4) == 0 {
+		// owners whose hardware address has the group bit set (clusters answering in multicast mode): an answer like any other
+		for i := range arp {
+			if g.r2.Intn(3) == 0 && len(arp[i].mac) == 6 && arp[i].mac[0] == 0x02 && arp[i].mac[1] == 0xcc {
+				arp[i].mac = append([]byte{0x03, 0xbf}, arp[i].mac[2:]...)
+			}
+		}
+	}
 	if g.r2 != nil && g.r2.Intn(3) == 0 {
 		// an owner that misses the first or the first two requests of a probe and answers the next one: still inside the window
 		for i := range arp {
@@ -864,6 +897,10 @@ func (g *srvGen) next() ([]byte, []arpResp, *simClient, byte) {
 		// a renewal / rebinding whose ciaddr is not the address it comes from (a multi-homed or confused client): what counts is the
 		// IP source; the reply goes to the assigned address (or to broadcast), never to whatever ciaddr says
 		m.ciaddr = g.someAddr()
+	}
+	if g.r2 != nil && g.r2.Intn(10) == 0 {
+		// hardware types other than Ethernet: the server has no use for the field, and what it does must not depend on it
+		m.htype = []byte{0, 6, 7, 32, 255}[g.r2.Intn(5)]
 	}
 	if g.r2 != nil && g.r2.Intn(14) == 0 {
 		// the server's own hardware address in chaddr, whatever the kind of message and whatever client identifier comes with it:
